@@ -40,6 +40,11 @@ def split_frames(buf):
   return out
 
 
+def decode_header(frame):
+  typ = frame[0] - 256 if frame[0] > 127 else frame[0]
+  return typ, (frame[1] << 16) | (frame[2] << 8) | frame[3]
+
+
 def decode_frame(frame):
   """frame: payload after the size prefix -> dict."""
   if len(frame) < 4:
